@@ -155,14 +155,19 @@ def run_property(pid, tier='quick', replay=None, quiet=False):
 
     def attempt(inline):
         INLINE_MODE[0] = inline
+        c = Ctx(pid, tier, prog)
         try:
-            c = Ctx(pid, tier, prog)
             mod.check(c)
             c.check_floors()
             if not c.obs:
                 raise AnalysisError('no obligations generated')
             return c, None
         except AnalysisError as e:
+            if any(not o.ok for o in c.obs):
+                # a later rule could not be evaluated, but obligations decided before it are violated: those stand (a violation does
+                # not become undecided because something else is); the rest of the property is reported as not analysed
+                c.notes.append('the analysis stopped early (%s): obligations after that point were not evaluated' % e)
+                return c, None
             return None, 'ANALYSIS-ERROR property=%s %s' % (pid, e)
         except Exception as e:  # internal error: never a violation
             return None, 'ANALYSIS-ERROR property=%s internal: %r\n%s' % (pid, e, traceback.format_exc())
